@@ -29,7 +29,7 @@ NLL_POISSON = {"nll", "poisson", "nll-poisson", "nll_poisson", "nllpoisson", "ne
 NLL_GAUSS = {"nll-gaussian", "nll_gaussian", "nllgaussiann"}
 NLLR_POISSON = {"nllr", "nllr-poisson", "nllr_poisson", "nllrpoisson", "negloglikelihoodratio", "neg_log_likelihood_ratio"}
 NLLR_GAUSS = {"nllr-gaussian", "nllr_gaussian", "nllrgaussian"}
-GA_COV = {"gauss-approximation", "gauss_approximation", "gauss_approximation_covariance"}
+GA_COV = {"gauss-approximation", "gauss_approximation", "gauss_approximation_covariance", "gauss_approximation_covariance_fast"}
 GA_POINT = {"gauss_approximation_pointwise", "gauss_approximation_pointwise_errors"}
 UNBINNED = {"nll", "negloglikelihood", "neg_log_likelihood"}
 
